@@ -97,6 +97,22 @@ CLAIMED = {
             "model Model/Extra.v hand-written; PublicKey::from_slice acceptance abstract in the theorems (Ed25519.pk_valid in the executable instance); "
             "the 32 MiB cap is part of the round-trip side condition (RawExtraField::from panics beyond it: DESIGN section 6, observation)",
             "Coq proof + model/implementation correspondence", "4 C16"),
+    "C03": ("Coq theorems (Props/C03.v): Spec/Wire.v lists the fields of the Monero reference serialisers (prefix, v1 signatures, rctSigBase, "
+            "rctSigPrunable incl. the varint BulletproofPlus count, header, block) rendered with textbook LEB128 and format-prescribed array "
+            "counts; for every well-formed description enc_T d = spec_T d and dec_T (spec_T d ++ r) = (Ok d, r), for transactions, blocks, "
+            "prefixes and each component; the spec reproduces 17 real transactions and 2 real blocks of the test-suite byte for byte by kernel "
+            "computation (Proofs/WireKAT.v). Correspondence: library bytes vs spec bytes and library parse of spec bytes vs description on the "
+            "7 types x ring x shape grid, proof counts 0..256, random shapes, blocks.",
+            "spec hand-written from the reference layout (cryptonote_basic.h, rctTypes.h as recalled; pinned by mainnet objects, all of which have one proof); tie = correspondence",
+            "Coq proof (refinement to field-list spec) + correspondence", "4 C03"),
+    "C05": ("Coq theorems (Props/C05.v), for ANY hash H and every size table: if bytes b parse completely as transaction t then the hash the "
+            "library model computes from the parsed object equals Monero's identifier computed from the BYTES and the format boundaries "
+            "(v1: H(b); v>=2: H(H(prefix bytes) || H(base bytes) || H(prunable bytes) or null hash for type Null; zero-input transactions hashed "
+            "as type Null), and the prefix hash is H of the first p bytes; the id is a function of the bytes alone. Correspondence: ids of "
+            "test-suite transactions, the type x shape grid, random shapes, zero-input v2, parsable mutations; oracle = python three-hash "
+            "definition with own Keccak and boundaries from the library's own parsers.",
+            "model Model/TxId.v hand-written after fix a7d4e8d; uses C01 (exactness) to turn 'serialisation of the parsed part' into 'slice of b'; Keccak instance is C17's",
+            "Coq proof + model/implementation correspondence", "4 C05"),
 }
 NOT_YET = {}
 ALL = ["C%02d" % i for i in range(1, 21)]
